@@ -49,8 +49,11 @@ Definition maxfB : bigQ := Eval vm_compute in bq ((2 ^ 1024 - 2 ^ 971) # 1).
 Open Scope bigQ_scope.
 
 Definition babs (q : bigQ) : bigQ := if bqltb q 0 then BigQ.opp q else q.
-(* |a - b| <= rt * scale *)
-Definition bcloseb (rt a b scale : bigQ) : bool := bqleb (babs (a - b)) (rt * scale).
+(* |a - b| <= rt * scale + atol.  atol = 2^-1062 (4096 spacings of the subnormal binary64 numbers):
+   when only undefined phases are left the results are multiples of tiny = 2^-1022 below the normal
+   range (e.g. f^2 * tiny), where binary64 has an absolute, not a relative, precision *)
+Definition atolB : bigQ := Eval vm_compute in bq (1 # (2 ^ 1062)).
+Definition bcloseb (rt a b scale : bigQ) : bool := bqleb (babs (a - b)) (rt * scale + atolB).
 
 Fixpoint bcmp_go (rt : bigQ) (k : nat) (impl model scale : list bigQ) : verdict :=
   match impl, model, scale with
